@@ -69,13 +69,16 @@ def muxWAsked (w : World) (e : End) : Bool :=
     | none => false
 
 /-- How many callbacks the handler of flow `i` gets in this pass: one per entry of its `socks`
-(own socket twice, tunnel read file, tunnel write file) that `select` returned. -/
+(own socket twice, tunnel read file, tunnel write file) that `select` returned.  A handler that
+does not exist yet when `select` returns but is appended to the list during the pass (the server's
+`new_channel`, for a CONNECT frame among the `k` arrived) is reached by the same `for h in handlers`
+and gets the callbacks for the tunnel's two files — its own socket was not in what `select` was
+asked about.  (For a flow that never gets a handler those steps change nothing.) -/
 def cbCount (w : World) (e : End) (k : Nat) (sel : Sel) (i : Nat) (f : Flow) : Nat :=
-  match handlerAt e f with
-  | none => 0
-  | some p =>
-    (if sockReady (w.muxAt e) p (sel.sockR i) (sel.sockW i) then 2 else 0) + (if 0 < k then 1 else 0) +
-    (if muxWAsked w e && sel.muxW then 1 else 0)
+  (match handlerAt e f with
+   | none => 0
+   | some p => if sockReady (w.muxAt e) p (sel.sockR i) (sel.sockW i) then 2 else 0) +
+  (if 0 < k then 1 else 0) + (if muxWAsked w e && sel.muxW then 1 else 0)
 
 /-- Before `select`: drop finished handlers, every `pre_select` in handler order. -/
 def roundHead (e : End) (n : Nat) : List Step :=
@@ -83,20 +86,21 @@ def roundHead (e : End) (n : Nat) : List Step :=
 
 /-- After `select` (decided on the state `w` the `pre_select`s left): the Mux's callback handles
 the `k` arrived frames, then every handler's callbacks in list order; the socket of flow `i`
-answers per `ios i`. -/
-def roundTail (w : World) (e : End) (k : Nat) (sel : Sel) (ios : Nat → CbIo) : List Step :=
-  List.replicate k (.deliver e .ok) ++
+answers per `ios i`, a `connect()` made while handling a CONNECT ends as `conn`. -/
+def roundTail (w : World) (e : End) (k : Nat) (conn : ConnRes) (sel : Sel) (ios : Nat → CbIo) :
+    List Step :=
+  List.replicate k (.deliver e conn) ++
   ((List.range w.flows.length).zip w.flows).flatMap fun (i, f) =>
     List.replicate (cbCount w e k sel i f) (.cb e i (ios i))
 
-/-- One `runonce` at end `e` in which `k` frames have arrived, the operating system reports `sel`
-and the sockets answer per `ios`. -/
-def World.round (w : World) (e : End) (k : Nat) (sel : Sel) (ios : Nat → CbIo) : World :=
+/-- One `runonce` at end `e` in which `k` frames have arrived (a `connect()` made for a CONNECT
+among them ends as `conn`), the operating system reports `sel` and the sockets answer per `ios`. -/
+def World.round (w : World) (e : End) (k : Nat) (conn : ConnRes) (sel : Sel) (ios : Nat → CbIo) : World :=
   (w.run (roundHead e w.flows.length)).run
-    (roundTail (w.run (roundHead e w.flows.length)) e k sel ios)
+    (roundTail (w.run (roundHead e w.flows.length)) e k conn sel ios)
 
 /-- The pass in the environment as it is. -/
 def World.roundAuto (w : World) (e : End) (k : Nat) (io : CbIo) : World :=
-  w.round e k (w.truthfulSel e) (fun _ => io)
+  w.round e k io.conn (w.truthfulSel e) (fun _ => io)
 
 end Sshuttle.Tunnel
